@@ -40,3 +40,10 @@ Example C04_run_example :
   option_map (fun s => (iter nat s, stat nat s)) (fst r) = Some (2%N, Solved) /\
   lines nat (snd r) = [0; 1; 2]%N.
 Proof. vm_compute. split; reflexivity. Qed.
+
+(** construction is refused exactly for inconsistent shapes (model of _check_dimensions) *)
+Require Import Clarabel.Solver.Dims.
+Theorem C04_dims_check_iff :
+  forall (Pm Pn qn Am An bn : N) (cd : list N),
+    dims_ok Pm Pn qn Am An bn cd = true <-> consistent Pm Pn qn Am An bn cd.
+Proof. exact dims_ok_iff. Qed.
